@@ -194,21 +194,32 @@ def impl_fn(case):
     }
 
 
+# Elaborating string literals and the match expression costs more than evaluating them; both are
+# defined once per shard in the prelude and the cases refer to them by name.
+NAMED = ["tumor", "lnl", "foo", "T", "U", "A", "B", "C", "Z"]
+PRELUDE = (
+    "Definition view (b : nat) (d : gdict) := (valid_dict b d, accepted_dict d, "
+    "match build_graph b d with "
+    "| inr g => inr (graph_view g, (tumors g, lnls g, map e_name (tumor_edges g), map e_name (lnl_edges g)), "
+    "map (fun e => (qout (e_spread e), qout (e_micro e))) (g_edges g), wf_graphb g) "
+    "| inl e => inl (err_tag e) end).\n"
+    + "\n".join(f'Definition s_{x} : string := "{x}"%string.' for x in NAMED) + "\n")
+
+
+def cs_(x: str) -> str:
+    return f"s_{x}" if x in NAMED else s(x)
+
+
 def coq_dict(case) -> str:
     items = []
     for k, n, cs, cont in case["entries"]:
         ctor = "CSet" if cont == "set" else "CList"
-        items.append(tup(tup(s(k), s(n)), f"({ctor} {lst(s(c) for c in cs)})"))
+        items.append(tup(tup(cs_(k), cs_(n)), f"({ctor} {lst(cs_(c) for c in cs)})"))
     return lst(items)
 
 
 def coq_expr(case):
-    return (f"let b := {nat(case['base'])} in let d := {coq_dict(case)} in "
-            f"(valid_dict b d, accepted_dict d, "
-            f"match build_graph b d with "
-            f"| inr g => inr (graph_view g, (tumors g, lnls g, map e_name (tumor_edges g), map e_name (lnl_edges g)), "
-            f"map (fun e => (qout (e_spread e), qout (e_micro e))) (g_edges g), wf_graphb g) "
-            f"| inl e => inl (err_tag e) end)")
+    return f"view {nat(case['base'])} {coq_dict(case)}"
 
 
 def norm(v):
@@ -391,7 +402,7 @@ def candidates(case):
 
 
 def failing(ctx, cases, tag):
-    bad = correspondence(ctx, cases, impl_fn, coq_expr, compare, IMPORTS, tag=tag, shard=400)
+    bad = correspondence(ctx, cases, impl_fn, coq_expr, compare, IMPORTS, tag=tag, shard=1500, prelude=PRELUDE)
     badset = {json.dumps(c, sort_keys=True) for c, _ in bad}
     return [json.dumps(c, sort_keys=True) in badset for c in cases], bad
 
